@@ -79,4 +79,15 @@ example :
     let r : CycRow := ⟨some 1, some 1, some 1, some 1⟩
     cyclesSpec [r, r, r, r, r] ⟨0, 1/2, 1/2, 4/5, 3⟩ = [false, true, true, true, false] := by decide +kernel
 
+/-- THE FILTER AS THIS DETECTOR USES IT: whatever the table and the (valid) thresholds, the labels `detect_bursts_cycles` returns are a fixed point of the
+minimum-run filter - no run of labelled cycles shorter than `min_n_cycles` survives in the detector's OUTPUT (it clears the table's first and last cycle BEFORE it
+filters, and keeps what the filter returns). -/
+theorem C06_filter_fixed_point (rows : List CycRow) (th : CycThresh) (labels : List Bool) (hv : th.valid) (hk : rows = [] ∨ 0 ≤ th.minN)
+    (h : detectCycles rows th = .ok labels) : minRun labels th.minN = labels := by
+  rw [detectCycles_eq_spec rows th hv hk] at h
+  injection h with h
+  subst h
+  unfold cyclesSpec
+  rw [← minRun_eq_spec, minRun_idem]
+
 end Bycycle
